@@ -247,6 +247,15 @@ def run(ck, rng, validate):
                            "Execute", "PostRun")
                and e[0] in par and (e[1] in nxt or g.states[e[1]]["phase"] in ("postrun", "crashed"))]
     rng.shuffle(targets)
+
+    # always replayed: the budget test on an entry that exists but is empty (seeded before the run)
+    def budget_on_seeded(k):
+        s_, d_, a_, _ = g.edges[k]
+        src, dst = g.states[s_], g.states[d_]
+        return a_ in ("Next", "AskOwn") and dst["stop"] == "MaxIter" and src["stop"] == "none" and \
+            any(not v for v in fdict(src["outs"]).values())
+    must = [k for k in targets if budget_on_seeded(k)][:40]
+    targets = must + [k for k in targets if k not in set(must)]
     budget = 6000 if ck.thorough else 220
     n = 0
     seen = set()
